@@ -46,6 +46,11 @@ let line_of dir n = match n mod 4 with
   | 1 -> Filename.concat dir (name_of n)              (* absolute *)
   | 2 -> "./" ^ name_of n                             (* relative, with a directory part *)
   | _ -> name_of n
+(* the text of a setfile naming [lines]; last_newline = false: the last line is not newline-terminated *)
+let setfile_text dir (lines : int list) ~last_newline =
+  let nl = List.length lines in
+  String.concat "" (List.mapi (fun i n -> line_of dir n ^ (if i = nl - 1 && not last_newline then "" else "\n")) lines)
+let setfile_last_newline step = step mod 3 <> 1
 let filt f = if f = 0 then None else Some (n_of_int (f - 1))
 
 let to_model (ops : xop list) : fop list =
@@ -93,8 +98,7 @@ let run_impl dir ~interval ~nf ~rf (ops : xop list) : child_end =
     let write_setfile ?(last_newline = true) (lines : int list) ~absolute =
       let oc = open_out setfile in
       ignore absolute;
-      let nl = List.length lines in
-      List.iteri (fun i n -> output_string oc (line_of dir n ^ (if i = nl - 1 && not last_newline then "" else "\n"))) lines;
+      output_string oc (setfile_text dir lines ~last_newline);
       close_out oc;
       mtime := !mtime +. 1.0; Unix.utimes setfile !mtime !mtime in
     (try Unix.mkdir (Filename.concat dir "sub") 0o755 with _ -> ());
@@ -118,7 +122,7 @@ let run_impl dir ~interval ~nf ~rf (ops : xop list) : child_end =
       end; (List.sort compare !tables, List.rev !keys) in
     List.iteri (fun step op ->
       (match op with
-       | XSetFile l -> write_setfile l ~absolute:(step mod 2 = 0) ~last_newline:(step mod 3 <> 1)
+       | XSetFile l -> write_setfile l ~absolute:(step mod 2 = 0) ~last_newline:(setfile_last_newline step)
        | XCreate (n, t) ->
          let p = Filename.concat dir (name_of n) in
          (* a path is always re-created (new inode), never rewritten in place: a loaded table stays mapped, and table
@@ -218,6 +222,20 @@ let check acc ~klass (interval, nf, rf, ops) =
     fail acc ~kind:"model_mismatch" ~what:"[C07] the model itself uses a destroyed reader (theorem T07a would be false)" (Lazy.force case);
   let dir = Filename.concat (Wr.tmpdir ()) (Printf.sprintf "fs_%d" (Unix.getpid ())) in
   ignore (Sys.command (Printf.sprintf "rm -rf %s && mkdir -p %s" (Filename.quote dir) (Filename.quote dir)));
+  (* the text of every setfile of the history, read by model/Setfile.v (getline / strlen / one newline stripped / the
+     directory of the setfile in front of relative names - T07g): the names the history means, with and without the
+     newline after the last one *)
+  List.iteri (fun step op ->
+    match op with
+    | XSetFile l ->
+      let text = setfile_text dir l ~last_newline:(setfile_last_newline step) in
+      let got = List.map string_of_nl (setfile_names (nl_of_string dir) (nl_of_string text)) in
+      let want_names = List.map (fun n -> let ln = line_of dir n in if String.length ln > 0 && ln.[0] = '/' then ln else dir ^ "/" ^ ln) l in
+      bump acc "setfile_texts_read_by_the_model";
+      if got <> want_names then
+        fail acc ~kind:"model_mismatch" ~what:"[C07] the names model/Setfile.v reads from the setfile text are not the names the history wrote (T07g)"
+          (JO [ "case", Lazy.force case; "step", JI step; "text", jbytes text ])
+    | _ -> ()) ops;
   (* mtbl_fileset_partition: the model (model/FilesetPart.v, T07f) on the state the history has reached *)
   let mpart = (let rec split acc = function [] -> None | XPartition (h, par) :: _ -> Some (List.rev acc, h, par) | o :: tl -> split (o :: acc) tl in
                match split [] ops with
